@@ -242,10 +242,16 @@ theorem unit_run (h : Transaction → Bool) {st : PState} (hi : Idle st) {u : DU
       rw [runD_cont (st' := { st with tables := st.tables.map fun p => if p.1 == id then (p.1, tc) else p })
         (by simp [stepD])]
     | false =>
-      refine ⟨{ st with tables := st.tables ++ [(id, tc)] }, ⟨ht, ha⟩,
-        by simp [dendPos], Or.inl ⟨by simp [dexpected], fun rest => ?_⟩⟩
-      simp only [devs, List.map_cons, List.map_nil, List.cons_append, List.nil_append]
-      rw [runD_cont (st' := { st with tables := st.tables ++ [(id, tc)] }) (by simp [stepD])]
+      by_cases hc : (findTable st.tables id).isSome = true
+      · refine ⟨{ st with tables := st.tables.map fun p => if p.1 == id then (p.1, tc) else p }, ⟨ht, ha⟩,
+          by simp [dendPos], Or.inl ⟨by simp [dexpected], fun rest => ?_⟩⟩
+        simp only [devs, List.map_cons, List.map_nil, List.cons_append, List.nil_append]
+        rw [runD_cont (st' := { st with tables := st.tables.map fun p => if p.1 == id then (p.1, tc) else p })
+          (by simp [stepD, hc])]
+      · refine ⟨{ st with tables := st.tables ++ [(id, tc)] }, ⟨ht, ha⟩,
+          by simp [dendPos], Or.inl ⟨by simp [dexpected], fun rest => ?_⟩⟩
+        simp only [devs, List.map_cons, List.map_nil, List.cons_append, List.nil_append]
+        rw [runD_cont (st' := { st with tables := st.tables ++ [(id, tc)] }) (by simp [stepD, hc])]
   | format f =>
     refine ⟨{ st with format := f }, ⟨ht, ha⟩, by simp [dendPos], Or.inl ⟨by simp [dexpected], fun rest => ?_⟩⟩
     simp only [devs, List.map_cons, List.map_nil, List.cons_append, List.nil_append]
